@@ -370,6 +370,12 @@ enum EOp {
 struct ECase {
     pre_msgs: u8,
     ops: Vec<EOp>,
+    /// cross-surface follow-ups: a further `POST /sessions/{id}/input` aimed at the session of a
+    /// started thread run or plain session (index into the started list, input kind, `early` = sent
+    /// while the first run may still be going, else after it ended). The documented answer is a
+    /// refusal; whatever the answer, the session stream must stay 0,1,2,...
+    #[serde(default)]
+    extra: Vec<(u16, u8, bool)>,
 }
 
 fn ecase_strategy() -> BoxedStrategy<ECase> {
@@ -381,8 +387,8 @@ fn ecase_strategy() -> BoxedStrategy<ECase> {
         2 => (1u8..3).prop_map(|stride| EOp::Auto { stride }),
         1 => Just(EOp::Branch),
     ];
-    (0u8..5, proptest::collection::vec(op, 2..9))
-        .prop_map(|(pre_msgs, ops)| ECase { pre_msgs, ops })
+    (0u8..5, proptest::collection::vec(op, 2..9), proptest::collection::vec((any::<u16>(), 0u8..4, any::<bool>()), 0..4))
+        .prop_map(|(pre_msgs, ops, extra)| ECase { pre_msgs, ops, extra })
         .boxed()
 }
 
@@ -466,6 +472,21 @@ fn run_engine(case: &ECase) -> CaseReport {
                 });
             }
             let started: Vec<Option<(String, String)>> = futures_util::future::join_all(futs).await;
+            let sessions: Vec<String> =
+                started.iter().flatten().filter(|s| s.0 == "run" || s.0 == "session").map(|s| s.1.clone()).collect();
+            let mut extra_sent = 0u64;
+            let mut extra_accepted = 0u64;
+            if !sessions.is_empty() {
+                let early = case.extra.iter().filter(|e| e.2).map(|(i, w, _)| {
+                    let sid = sessions[pick(*i, sessions.len())].clone();
+                    let auth = &auth;
+                    async move { auth.send_input(&sid, &tool_input(*w, 900)).await }
+                });
+                for st in futures_util::future::join_all(early).await {
+                    extra_sent += 1;
+                    extra_accepted += st.is_success() as u64;
+                }
+            }
             // quiescence
             for s in started.iter().flatten() {
                 let ok = match s.0.as_str() {
@@ -477,6 +498,21 @@ fn run_engine(case: &ECase) -> CaseReport {
                     rep.inconclusive("quiescence_timeout");
                     return;
                 }
+            }
+            if !sessions.is_empty() {
+                for (i, w, _) in case.extra.iter().filter(|e| !e.2) {
+                    let sid = &sessions[pick(*i, sessions.len())];
+                    let st = auth.send_input(sid, &tool_input(*w, 901)).await;
+                    extra_sent += 1;
+                    extra_accepted += st.is_success() as u64;
+                }
+            }
+            rep.count("extra_inputs", extra_sent);
+            rep.count("extra_inputs_accepted", extra_accepted);
+            rep.class_if(extra_sent > 0, "further_input_to_a_started_session");
+            if extra_accepted > 0 {
+                // an accepted input starts a run: give it time to write before judging the log
+                tokio::time::sleep(Duration::from_millis(400)).await;
             }
             // compaction jobs spawned over HTTP run in the background: wait until the log is stable
             let mut last = auth.sandbox.log_bytes().len();
@@ -644,7 +680,7 @@ fn main() {
     let n = check.cases(160, 4000);
     check.group(
         "engine_parallel",
-        "parallel thread posts (stub prompts, write/ls/bash tool envelopes), plain sessions, pipes tasks, auto-compaction and branch requests issued concurrently through the real router (free-running); non-trivial = >=2 concurrent producers",
+        "parallel thread posts (stub prompts, write/ls/bash tool envelopes), plain sessions, pipes tasks, auto-compaction and branch requests issued concurrently through the real router (free-running), followed in half of the cases by further inputs aimed at the sessions those posts and sessions created (cross-surface: thread post, then session input); non-trivial = >=2 concurrent producers",
         GroupOpts { cases: n, max_shrink_iters: 60, watchdog_s: 600, ..Default::default() },
         ecase_strategy,
         run_engine,
